@@ -7,13 +7,13 @@ def cchar(b):
     return "char(%d)" % (b if b < 128 else b - 256)
 
 
-def tu_source(g, gid=None, dflt=(), limits=None, ctx=(), postprec=()):
+def tu_source(g, gid=None, dflt=(), limits=None, ctx=(), postprec=(), defines=(), noval=()):
     """g: gram.Grammar.  Terms are typed char terms with the observing functor, every rule gets RuleF{index}."""
     gid = gid or g.name
-    o = ['#include "rt.hpp"', 'using namespace ctpg;', 'using vh::Node;', 'namespace G {',
+    o = ['#define %s' % d for d in defines] + ['#include "rt.hpp"', 'using namespace ctpg;', 'using vh::Node;', 'namespace G {',
          'using TT = typed_term<char_term, vh::TermF>;']
     for i, n in enumerate(g.nts):
-        o.append('nterm<Node> n%d("%s");' % (i, 'N%d' % i))
+        o.append('nterm<%s> n%d("%s");' % ('no_type' if i in noval else 'Node', i, 'N%d' % i))      # noval: value-less nonterminals
     for i, t in enumerate(g.ts):
         # declarations as a user writes them: default arguments are used whenever precedence / associativity are default
         pr, asc = g.tprec.get(t, 0), g.tassoc.get(t, 0)
@@ -28,7 +28,8 @@ def tu_source(g, gid=None, dflt=(), limits=None, ctx=(), postprec=()):
         post = prec != 0 and ri in postprec and ri not in dflt       # precedence attached after the functor: (rule >= f)[p]
         if prec != 0 and not post:
             r = '(%s[%d])' % (r, prec)
-        r = '%s' % r if ri in dflt else ('%s >>= vh::RuleFC{%d}' % (r, ri) if ri in ctx else '%s >= vh::RuleF{%d}' % (r, ri))
+        nv = 'N' if ntid[l] in noval else ''
+        r = '%s' % r if ri in dflt else ('%s >>= vh::RuleFC%s{%d}' % (r, nv, ri) if ri in ctx else '%s >= vh::RuleF%s{%d}' % (r, nv, ri))
         if post:
             r = '(%s)[%d]' % (r, prec)
         rl.append('        ' + r)
@@ -43,7 +44,7 @@ def tu_source(g, gid=None, dflt=(), limits=None, ctx=(), postprec=()):
     return '\n'.join(o) + '\n'
 
 
-def tla_json(g, gid=None, dflt=(), ctx=()):
+def tla_json(g, gid=None, dflt=(), ctx=(), noval=()):
     """Same JSON shape as gram.HostGrammar.tla_json, for an exact (generated TU) grammar."""
     gid = gid or g.name
     ntid = {n: i for i, n in enumerate(g.nts)}
@@ -64,7 +65,7 @@ def tla_json(g, gid=None, dflt=(), ctx=()):
         'id': gid, 'nnt': nnt, 'nt': nt, 'root': ntid[g.root], 'rules': rules, 'used': [1] * len(rules),
         'tprec': [g.tprec.get(t, 0) for t in g.ts], 'tassoc': [g.tassoc.get(t, 0) for t in g.ts],
         'tbytes': [ord(t) for t in g.ts], 'tnames': tn, 'ntnames': names_nt, 'ruletext': texts,
-        'lex': 'chars', 'lexterms': [], 'dflt': sorted(dflt), 'ctxr': sorted(ctx), 'deflimits': True, 'lexobs': False, 'obsT': True, 'obsC': True, 'alpha': [ord(t) for t in g.ts],
+        'lex': 'chars', 'lexterms': [], 'dflt': sorted(dflt), 'ctxr': sorted(ctx), 'noval': sorted(noval), 'deflimits': True, 'lexobs': False, 'obsT': True, 'obsC': True, 'alpha': [ord(t) for t in g.ts],
         'uterms': list(range(nt)),
     }
 
@@ -129,7 +130,7 @@ def lex_tla_json(gid, terms, shape='list'):
     return {'id': gid, 'nnt': 1, 'nt': nt, 'root': 0, 'rules': rules, 'used': [1] * len(rules),
             'tprec': [0] * nt, 'tassoc': [0] * nt, 'tbytes': [0] * nt, 'tnames': tn, 'ntnames': ['N0', '##'], 'ruletext': texts,
             'lex': 'ref', 'lexterms': [{'kind': t[0], 'data': ([t[1]] if t[0] == 'C' else list(t[1]))} for t in terms],
-            'dflt': [], 'ctxr': [], 'deflimits': True, 'lexobs': False, 'obsT': True, 'obsC': True, 'alpha': [], 'uterms': list(range(nt))}
+            'dflt': [], 'ctxr': [], 'noval': [], 'deflimits': True, 'lexobs': False, 'obsT': True, 'obsC': True, 'alpha': [], 'uterms': list(range(nt))}
 
 
 # ---------------------------------------------------------------- custom lexer (C18)
